@@ -164,6 +164,11 @@ def value_offset(tag, nd, case=None):
     return 0
 
 
+def tlv_offset(tag, nd):
+    """address of the NDEF message TLV's T byte for the TLV based types (-1 otherwise)"""
+    return nd._ndef_tlv_offset if tag.type in ("Type1Tag", "Type2Tag") else -1
+
+
 def run_case(case):
     """-> trace dict for Trace_TagRead.  Calls: activate, ndef, (attributes), changed."""
     rec = []
@@ -203,27 +208,27 @@ def run_case(case):
             nd = tag.ndef
             if nd is None:
                 return None
-            return dict(len=nd.length, cap=nd.capacity, olen=len(nd.octets), off=value_offset(tag, nd, case),
+            return dict(len=nd.length, cap=nd.capacity, olen=len(nd.octets), off=value_offset(tag, nd, case), tlv=tlv_offset(tag, nd),
                         rd=bool(nd.is_readable), wr=bool(nd.is_writeable))
         r, exc = call("ndef", read_ndef)
         if exc is None:
             if r is None:
                 events.append(ev("Finish", call="ndef", none=True))
             else:
-                events.append(ev("Finish", call="ndef", none=False, off=r["off"], len=r["olen"], cap=r["cap"]))
+                events.append(ev("Finish", call="ndef", none=False, off=r["off"], len=r["olen"], cap=r["cap"], tlv=r["tlv"]))
 
                 def changed():
                     nd = tag.ndef                      # the object obtained above (cached)
                     ch = nd.has_changed                # one more complete read
                     if tag._ndef is None:              # the re-read failed: tag.ndef is gone
                         return None
-                    return dict(len=nd.length, cap=nd.capacity, olen=len(nd.octets), off=value_offset(tag, nd, case), ch=ch)
+                    return dict(len=nd.length, cap=nd.capacity, olen=len(nd.octets), off=value_offset(tag, nd, case), tlv=tlv_offset(tag, nd), ch=ch)
                 r2, exc2 = call("changed", changed)
                 if exc2 is None:
                     if r2 is None:
                         events.append(ev("Finish", call="changed", none=True))
                     else:
-                        events.append(ev("Finish", call="changed", none=False, off=r2["off"], len=r2["olen"], cap=r2["cap"]))
+                        events.append(ev("Finish", call="changed", none=False, off=r2["off"], len=r2["olen"], cap=r2["cap"], tlv=r2["tlv"]))
     if tag is not None:
         # the presence check re-runs the activation / identification commands of the tag type
         p, excp = call("present", lambda: bool(tag.is_present))
@@ -541,6 +546,62 @@ def variants_for(kind, rnd):
     return {}
 
 
+def threshold_cases(rnd, tier):
+    """Type 2 and dynamic Type 1 layouts whose usable space sits at the switch between the 1 byte and the 3 byte
+    NDEF TLV length format: room (T byte .. end of the declared area) 253..262, shifted byte by byte by NULL
+    TLVs (and a lock control TLV pointing behind the area) in front, the NDEF TLV in either length format with
+    L around what fits; the physical memory goes on behind the declared area (lock / configuration bytes)."""
+    out = []
+    rooms = list(range(253, 263))
+    for kind in ("T2", "T1"):
+        for room in rooms:
+            lens = sorted(set([room - 5, room - 4, room - 3, room - 2, room - 1, room, room + 1, 253, 254, 255, 256]))
+            combos = [(fmt, L) for fmt in (1, 3) for L in lens if not (fmt == 1 and L > 254) and L >= 0]
+            if tier == "quick":
+                keep = [c for c in combos if c[1] in (254, 255, 256) or c[1] in (room - 4, room - 3, room - 2)]
+                combos = keep if kind == "T2" else keep[::2]
+            for fmt, L in combos:
+                lock = rnd.random() < 0.5
+                if kind == "T2":
+                    size = rnd.choice([0x21, 0x24, 0x30, 0x3E])
+                    end = 16 + 8 * size
+                    mem = bytearray(end + 32)
+                    mem[0:10] = bytes.fromhex("02112233445566778899")
+                    mem[12:16] = bytes([0xE1, 0x10, size, 0x00])
+                    lo = 16
+                else:
+                    nblk = rnd.choice([0x3F, 0x47])               # 512 / 576 byte declared
+                    end = (nblk + 1) * 8
+                    mem = bytearray(end + 128 + (-(end + 128)) % 128)
+                    mem[0:8] = bytes.fromhex("0102030405060700")
+                    mem[8:12] = bytes([0xE1, 0x10, nblk, 0x00])
+                    lo = 128                                      # behind the reserved bytes 104..127
+                tlv = end - room
+                if lock and tlv - lo >= 5:
+                    behind = ((end + 8) // 64 + 1) * 64           # 16 lock bits in the bytes behind the area
+                    if behind // 64 <= 15:
+                        mem[lo:lo + 5] = bytes([0x01, 0x03, (behind // 64) << 4, 0x10, 0x36])
+                mem[tlv] = 0x03
+                voff = tlv + (2 if fmt == 1 else 4)
+                if fmt == 1:
+                    mem[tlv + 1] = L
+                else:
+                    mem[tlv + 1:tlv + 4] = bytes([0xFF, L >> 8, L & 0xFF])
+                for a in range(voff, end):
+                    mem[a] = 0xA5
+                for a in range(end, len(mem)):
+                    mem[a] = 0xEE
+                if voff + L < end:
+                    mem[voff + L] = 0xFE
+                c = dict(id="th-%s-r%d-f%d-l%d-%d" % (kind.lower(), room, fmt, L, int(lock)), kind=kind, mem=list(mem))
+                if kind == "T2":
+                    c.update(version=None, uid=list(bytes.fromhex("02112233445566")))
+                else:
+                    c.update(hr=[0x12, 0x4C])
+                out.append(c)
+    return out
+
+
 GEN = dict(T1=gen_t1, T2=gen_t2, T3=gen_t3, T4=gen_t4)
 
 
@@ -590,6 +651,13 @@ def directed_cases():
     out.append(dict(id="d-t1-tlv-beyond-area", kind="T1", hr=[0x12, 0x4C], mem=list(m5)))
     out.append(dict(id="d-t4-v3-mapping", kind="T4", files={"e103": list(cc_file(cclen=17, ver=0x30, t=6, l=8, maxsize=60)),
                                                             "e104": list((10).to_bytes(4, "big") + bytes(range(10)) + bytes(46))}))
+    # NDEF TLV stored with three length bytes, two bytes too long for the declared area (253 byte room, L = 250)
+    th = {c["id"]: c for c in threshold_cases(random.Random(0), "thorough")}
+    for cid, name in (("th-t2-r253-f3-l250", "d-t2-tlv-3-byte-length-ends-behind-area"),
+                      ("th-t1-r253-f3-l250", "d-t1-tlv-3-byte-length-ends-behind-area")):
+        c = dict(next(v for k, v in sorted(th.items()) if k.startswith(cid)))
+        c["id"] = name
+        out.append(c)
     # answers after activation that are well framed but not what the command implies
     out.append(dict(id="d-t1-rall-empty", kind="T1", hr=[0x12, 0x4C], mem=list(m5), mut={"RALL": [["trunc", 122]]}))
     out.append(dict(id="d-t1-read-empty", kind="T1", hr=[0x11, 0x48], mem=list(m), mut={"READ": [["trunc", 2]]}))
@@ -609,7 +677,7 @@ def directed_cases():
 def make_cases(tier, seed):
     rnd = random.Random("c08/%d" % seed)
     n = dict(quick=dict(T1=700, T2=900, T3=500, T4=900), thorough=dict(T1=12000, T2=15000, T3=8000, T4=15000))[tier]
-    cases = directed_cases()
+    cases = directed_cases() + threshold_cases(random.Random("c08th/%d" % seed), tier)
     for kind in ("T1", "T2", "T3", "T4"):
         for i in range(n[kind]):
             c = GEN[kind](rnd, i)
@@ -640,6 +708,8 @@ def classify(tr, line, act, why):
     if w == "exception":
         return "exception:%s:%s:%s@%s" % (k, call, e["exc"], e["site"])
     if w == "result":
+        if "cap>fits" in why[1] and "len>cap" not in why[1]:
+            return "result:%s:%s:capacity-beyond-what-the-area-can-store" % (k, call)
         if "len>cap" in why[1] and set(why[1]) <= {"len>cap", "off+len>hi"}:
             return "result:%s:%s:message-longer-than-declared-data-area" % (k, call)
         return "result:%s:%s:%s" % (k, call, "+".join(why[1]))
